@@ -1,0 +1,24 @@
+//go:build verif
+
+// Contracts for the deductive checker in /verif (comment-only; compiled only with -tags verif).
+package encoding
+
+//@ func (*Parser).Read
+//@   props C17 C18
+//@   requires r.r != nil && 0 <= r.pos && r.pos <= 1152921504606846976
+//@   modifies r.pos, b, stream(r.r)
+//@   ensures 0 <= result0 && result0 <= len(b) && pos(r.r) == old(pos(r.r)) + result0 && r.pos == old(r.pos) + result0
+//@   ensures [C18] fromStream(b, r.r, old(pos(r.r)), result0)
+
+//@ func (*Parser).NextBytes
+//@   props C17 C18
+//@   requires r.r != nil && r.buf != nil && 0 <= r.pos && r.pos <= 1152921504606846976 && 0 <= n && n <= 1099511627776
+//@   modifies r.pos, region(bufreg(r.buf)), stream(r.r)
+//@   ensures len(result0) == n && (fresh(result0) || reg(result0) == bufreg(r.buf))
+//@   ensures [C18] err == nil ==> pos(r.r) == old(pos(r.r)) + n && r.pos == old(r.pos) + n && fromStream(result0, r.r, old(pos(r.r)), n)
+//@   ensures [C18] streamClean(r.r) && old(avail(r.r)) >= n ==> err == nil
+//@   ensures [C18] streamClean(r.r) && err != nil ==> pos(r.r) == streamLen(r.r) && (isErr(err, io.EOF) <==> old(avail(r.r)) == 0)
+//@   ensures pos(r.r) >= old(pos(r.r)) && pos(r.r) <= old(pos(r.r)) + n && r.pos == old(r.pos) + pos(r.r) - old(pos(r.r))
+//@   ensures [C17] allocated <= old(allocated) + n + 2147483648
+//@   replay func() ([]byte, error) { p := NewParser($reader); return p.NextBytes($n) }()
+//@   replay-reader r.r
